@@ -1033,13 +1033,13 @@ def _get_serializer_for_value(value, serializing):
         elif (Enum is not None and
               (serializing and issubclass(cls, Enum)) or
               (not serializing and
-               cls is dict and
+               isinstance(value, dict) and
                value.get('_enum') is True)):
             serialization_cls = EnumSerialization
         elif serializing and hasattr(value, 'deconstruct'):
             serialization_cls = DeconstructedSerialization
         elif (not serializing and
-              cls is dict and
+              isinstance(value, dict) and
               value.get('_deconstructed') is True):
             serialization_cls = DeconstructedSerialization
         elif isinstance(value, BasePlaceholder):
